@@ -664,7 +664,7 @@ func c04Fixed(c *core.Ctx, run func(i int64, p *lang.Program, tag string)) int64
 		}
 	}
 	// selectors and targets that are not in the language: compile errors at that token
-	for _, sel := range []string{"01", "001", "0x1", "0X01", "1.0", "1e0", "2", "0", "11", "\"1\"", "one", "firstx", "First", "ALL", "lasts", "true", "nil"} {
+	for _, sel := range []string{"01", "001", "0x1", "0X01", "1.0", "1e0", "2", "0", "11", "\"1\"", "one", "firstx", "First", "ALL", "lasts", "true", "nil", "struct", "slice", "srv", "bind"} {
 		for _, tgt := range tgts {
 			if c.Mine(i) {
 				p := &lang.Program{Stmts: []*lang.Stmt{blk("srv", "n1", 1), {Kind: lang.SBind, Name: "srv", Sel: sel, Target: tgt}}}
@@ -673,7 +673,7 @@ func c04Fixed(c *core.Ctx, run func(i int64, p *lang.Program, tag string)) int64
 			i++
 		}
 	}
-	for _, tgt := range []string{"structs", "Struct", "SLICE", "slices", "map", "x"} {
+	for _, tgt := range []string{"structs", "Struct", "SLICE", "slices", "map", "x", "first", "last", "all", "1", "srv", "nil"} {
 		for _, sel := range sels {
 			if c.Mine(i) {
 				p := &lang.Program{Stmts: []*lang.Stmt{blk("srv", "n1", 1), {Kind: lang.SBind, Name: "srv", Sel: sel, Target: tgt}}}
@@ -700,6 +700,20 @@ func c04Fixed(c *core.Ctx, run func(i int64, p *lang.Program, tag string)) int64
 				p.Stmts = append(p.Stmts, &lang.Stmt{Kind: lang.SBind, Name: "srv", Sel: sel, Target: tgt})
 				p.Stmts = append(p.Stmts, &lang.Stmt{Kind: lang.SBind, Name: "late", Sel: "", Target: "struct"})
 				run(i, p, "long_result_with_binds")
+			}
+			i++
+		}
+	}
+	// block counts around 2^16 (and 2^8 above): every selector still sees all of them
+	for _, n := range []int{65535, 65536, 65537, 65793} {
+		for _, st := range [][2]string{{"", "struct"}, {"1", "slice"}, {"first", "struct"}, {"last", "struct"}, {"all", "slice"}, {"last", "slice"}} {
+			if c.Mine(i) {
+				p := &lang.Program{}
+				for k := 0; k < n; k++ {
+					p.Stmts = append(p.Stmts, blk("srv", "", k))
+				}
+				p.Stmts = append(p.Stmts, &lang.Stmt{Kind: lang.SBind, Name: "srv", Sel: st[0], Target: st[1]})
+				run(i, p, "block_count_around_65536")
 			}
 			i++
 		}
@@ -742,7 +756,7 @@ func init() {
 		Level: "exploration",
 		Rule: "reference-model monitor: fixed product selector {none,1,first,last,all} x target {struct,slice} x 0-4 candidate blocks x other-type blocks before/between x 0-2 candidates defined after the first bind x 1-3 bind statements " +
 			"(all cases), then random block programs with bind statements anywhere (also inside blocks). Compared: Binding kind, blocks and order; warnings (count, line:column) on the log writer; runtime-error class and position. " +
-			"distinct = hash of source; non-trivial = specified verdict and >= 1 bind executed Also: binds inside block bodies; unknown selectors (01 001 0x1 1.0 2 \"1\" one First ...) and unknown targets as compile errors at that token; block types spelled like selector / target words or differing only in case; results with 200..1000 toplevel blocks and binds in between; a failing log writer must not make a repeated bind fail.",
+			"distinct = hash of source; non-trivial = specified verdict and >= 1 bind executed Also: binds inside block bodies; unknown selectors (01 001 0x1 1.0 2 \"1\" one First ...) and unknown targets as compile errors at that token; block types spelled like selector / target words or differing only in case; results with 200..1000 toplevel blocks and binds in between; 65535..65793 blocks of the bound type under every selector; selectors spelled like targets and targets spelled like selectors; a failing log writer must not make a repeated bind fail.",
 		Assumptions:   []string{"DESIGN §5.4 bind rules are the language definition"},
 		MinNontrivial: 1000,
 		Run: func(c *core.Ctx) {
